@@ -1144,6 +1144,23 @@ impl Net {
 					self.drain();
 				} else { did = false; }
 			},
+			"close_extra" => {
+				// node a asks to close (cooperatively) the newest channel it has with b besides the run's main one
+				let a = op["a"].as_u64().unwrap() as usize;
+				let b = op["b"].as_u64().unwrap() as usize;
+				if a < n && b < n && a != b {
+					let pb = self.nodes[b].node.get_our_node_id();
+					let main = self.chan_ids.get(&(a.min(b), a.max(b))).cloned();
+					let cand: Vec<ChannelId> = self.nodes[a].node.list_channels().iter()
+						.filter(|c| c.counterparty.node_id == pb && Some(c.channel_id) != main && c.funding_txo.is_some()).map(|c| c.channel_id).collect();
+					if let Some(cid) = cand.last() {
+						let c = self.chan(cid);
+						let ok = self.nodes[a].node.close_channel(cid, &pb).is_ok();
+						self.ev(json!({"ev":"close","node":a,"chan":c,"ok":ok}));
+						self.drain();
+					} else { did = false; }
+				} else { did = false; }
+			},
 			"tamper_raa" => {
 				let f = op["from"].as_u64().unwrap() as usize;
 				let t = op["to"].as_u64().unwrap() as usize;
@@ -1763,6 +1780,8 @@ fn build_net(run: u64, cfg: &Value, log: &Log) -> Net {
 	}
 	uc.channel_config.forwarding_fee_base_msat = 1000;
 	uc.channel_config.forwarding_fee_proportional_millionths = 0;
+	// (without an upfront shutdown script a peer's `shutdown` produces a monitor update of its own)
+	if cfg["upfront_shutdown"].as_bool() == Some(false) { uc.channel_handshake_config.commit_upfront_shutdown_pubkey = false; }
 	if cfg["intercept"].as_bool().unwrap_or(false) {
 		// LSP-style forwarding: nodes accept HTLCs for their intercept SCID and let the user decide where they
 		// go (possibly taking an extra fee), and accept HTLCs a previous hop has skimmed such a fee from
